@@ -193,11 +193,17 @@ class Ctx:
             tmp.unlink(missing_ok=True)
         if p.returncode != 0:
             raise ToolFailure("axiom audit failed:\n" + _tail(p.stdout + p.stderr, 40))
+        declared = set()
+        for m in modules:
+            src = _strip_comments((LEAN / (m.replace(".", "/") + ".lean")).read_text())
+            declared |= set(re.findall(r"^\s*(?:private\s+|protected\s+)?theorem\s+([^\s:({\[]+)", src, re.M))
         for line in p.stdout.splitlines():
             mm = re.match(r"AUDIT (\S+) (\S+) :: \[(.*)\]", line)
             if not mm:
                 continue
             mod, thm, axs = mm.group(1), mm.group(2), [a.strip() for a in mm.group(3).split(",") if a.strip()]
+            if thm.split(".")[-1] not in declared:
+                continue  # equation lemmas and other auto-generated theorems are not obligations
             self.axioms[thm] = axs
             if ".Properties." in mod:
                 self.obligations.append(thm)
